@@ -227,6 +227,13 @@ def run_w(prop, tier, seed, args):
             agg.violations.append({"i": -1})
             rc = 1
     agg.dump_digests(args.digests)
+    if rc == 0:
+        from .core import reach_self_check
+
+        missing = reach_self_check(prop, agg, agg.runs, tier_budget(prop, tier)["runs"])
+        if missing:
+            print(f"HARNESS-ERROR reach probes stuck at zero for {prop}: {missing}", file=sys.stderr)
+            return 2
     # determinism self-check: a sample of this batch's runs is re-executed in the parent
     # process (no pool) and must reproduce the pooled digests bit for bit
     if rc == 0 and not agg.violations:
